@@ -43,7 +43,7 @@ fi
 rm -f $DEMOFILE
 git -C $W diff > /tmp/wt/sv-$PID-$V.rebased.diff
 # 3. my check against the patched tree
-cd /verif
+cd ${VERIF_DIR:-/verif}
 CK=$(VERIF_RUN_DIR=/tmp/wt/sv-run-$PID-$V VERIF_EVIDENCE_DIR=/tmp/wt/sv-ev-$PID-$V VERIF_REPLAY_DIR=/tmp/wt/sv-replay-$PID-$V VERIF_REPO=$W ./check $PID quick 2>/tmp/wt/sv-check-$PID-$V.err | grep -E "VIOLATION" | head -1)
 CRC=${PIPESTATUS[0]}
 WHY=$(grep -E "violated|VERIF-VIOLATION|panic:|fatal error|DATA RACE|INFRA|STARVED|BUILD FAILED" /tmp/wt/sv-check-$PID-$V.err | head -1 | cut -c1-260)
